@@ -61,6 +61,11 @@ CHECKS["C07"] = dict(level="model_checking", design="5 C07",
    note="ASOF '0s' (a zero offset) is treated by the parser as 'not given' and is not generated. Queries that fail (asOf before the table's window) are not judged. Retention is a multiple of the resolution in the tables used (see DESIGN.md observation O3).",
    technique="TLA+ trace validation (TLC) of generated time-ranged queries against the specification's view")
 
+CHECKS["C08"] = dict(level="model_checking", design="5 C08",
+   text="WHERE over dimensions: the rows of generated queries with a predicate from a catalogue (=, <>, <, >, LIKE, IN, IS [NOT] NULL, AND/OR nested one level; over int, float, string, nil and missing dimensions) are bound by trace validation to the specification's view restricted to the keys whose dimensions satisfy the predicate (truth computed by the generator with goexpr's NULL ordering), also under grouping. HAVING, dim IN (sub-query) and FROM (sub-query) are decided by the differential laws the statement gives, between executions on the same gate-built quiescent data: HAVING result = rows of the HAVING-free query (its own select list) satisfying the predicate, helper column not exposed; IN (sub-query) = IN (literal list of the distinct values the sub-query returns on its own); outer-over-sub-query = regrouping of the materialised inner rows (C06's predicate applied to the inner rows).",
+   note="The truth of an atomic predicate on NULL follows goexpr (nil differs from everything and sorts below every value). Rows whose own dimension is missing are left out of the IN law (a literal list cannot express NULL). Predicates use the dimensions the table groups by.",
+   technique="TLA+ trace validation (TLC) for WHERE + differential laws over real executions for HAVING / sub-queries")
+
 NOT_YET = {}
 
 
